@@ -222,7 +222,9 @@ func (c *Handler) HandleTokenEndpointRequest(ctx context.Context, request fosite
 		}
 	}
 
-	return c.deletePKCERequestSession(ctx, signature)
+	// The binding is consumed in PopulateTokenEndpointResponse, after the handlers before this one have issued: a failure
+	// of the issuing step (which leaves the authorization code usable) must not leave the code without its PKCE binding.
+	return nil
 }
 
 // deletePKCERequestSession removes the PKCE session once the request has passed verification. A failed
@@ -236,7 +238,17 @@ func (c *Handler) deletePKCERequestSession(ctx context.Context, signature string
 }
 
 func (c *Handler) PopulateTokenEndpointResponse(ctx context.Context, requester fosite.AccessRequester, responder fosite.AccessResponder) error {
-	return nil
+	if !c.CanHandleTokenEndpointRequest(ctx, requester) {
+		return nil
+	}
+
+	// A request that reaches this point with a verifier has been checked against a stored PKCE session
+	// (HandleTokenEndpointRequest refuses a verifier without one): the session has served its purpose.
+	if requester.GetRequestForm().Get("code_verifier") == "" {
+		return nil
+	}
+	signature := c.AuthorizeCodeStrategy.AuthorizeCodeSignature(ctx, requester.GetRequestForm().Get("code"))
+	return c.deletePKCERequestSession(ctx, signature)
 }
 
 func (c *Handler) CanSkipClientAuth(ctx context.Context, requester fosite.AccessRequester) bool {
